@@ -55,6 +55,10 @@ def schema_terms():
         # a float interval wider than the float range (its own branch of the generator), an open
         # repeat whose lower bound is beyond max_repeat, a sum that brings in several new keys
         S("float", ("min", -1.7e308), ("max", 1.7e308)), rx("[a-c]{40,}"), rx("x+"),
+        # a precision float whose bounds carry more digits than a small decimal context; the
+        # result of substituting into a RELAXED dict with several free keys
+        S("float", ("min", 0.123456789), ("max", 9.87654321), ("precision", 3)),
+        ("subst", ("dict", _D3[1], True), {"b": "xy"}), ("subst", ("dict", _D4[1], True), {"a": 5}),
         ("add", _D3, ("dict", (("n1", False, INT), ("n2", False, S("bool")), ("n3", False, S("str", ln(1))),
                                ("n4", False, S("int", ("min", 0), ("max", 7))), ("n5", False, INT)), False)),
     ]
@@ -134,11 +138,27 @@ def main():
 
                 def gen(i):
                     try:
+                        if order.endswith("+pure-ops") and type(local[i]).__name__ == "DictSchema":
+                            # public pure operations on the schema between two generations from it
+                            # (results discarded): the schema generates what it generated before
+                            from d42.utils import make_required
+                            v = fake(local[i])
+                            try:
+                                make_required(local[i])
+                                make_required(local[i], [k for k in local[i].keys() if k is not ...][:1])
+                                local[i] + local[i]
+                                repr(local[i])
+                            except Exception:  # noqa: BLE001
+                                pass
+                            return v
                         return fake(local[i])
                     except Exception as e:  # noqa: BLE001 - a failing schema is part of the sequence
                         return ("raised", type(e).__name__)
 
                 def once():
+                    if order.endswith("+decimal"):
+                        import decimal
+                        decimal.getcontext().prec = 5      # the application's own decimal context
                     rnd.set_seed(k)
                     if order.endswith("+instances"):
                         extra_instances()
